@@ -758,7 +758,9 @@ W_FIELD.update({f: ":ivar w: See `meth` and `nosuch.thing`.\n" for f in ("restru
 # reST texts with ONE markup problem docutils recovers from, by the level docutils gives it
 LVL_TEXT = {"info": ["Summary of %s.\n\nTitle\n==\n\nText.\n", "Summary of %s.\n\n3. item\n4. item\n", "Summary of %s::\n  x\n\ny\n"],
             "error": ["Summary of %s with |nosub| here.\n", "Summary of %s with nosuchtarget_ here.\n"],
-            "severe": ["Summary of %s.\n\nA\n===\n\nB\n---\n\nC\n~~~\n\nD\n---\n\nE\n^^^\n"]}
+            "severe": ["Summary of %s.\n\nA\n===\n\nB\n---\n\nC\n~~~\n\nD\n---\n\nE\n^^^\n"],
+            # not docutils' but pydoctor's own splitter of consolidated fields gives up (the field is shown as-is)
+            "split": ["Summary of %s.\n\n:Parameters:\n    this is not a list\n", "Summary of %s.\n\n:Parameters:\n    - **x**: not an identifier\n"]}
 
 
 def helper_tags() -> List[str]:
